@@ -70,46 +70,46 @@ Qed.
 (* ---- the decision table -------------------------------------------------------------------------- *)
 Section Decide.
 Variable dec_ignore : list N -> str.
+Variable names_utf8 : str -> bool.
 
 Theorem comment_beats_input_encoding b known name rest :
   strip_prefix BOM b = None -> coding_match (dec_ignore b) = Some (name, rest) ->
-  decide dec_ignore (IBytes b) known = OBytes name b.
+  decide dec_ignore names_utf8 (IBytes b) known = OBytes name b.
 Proof. intros Hb Hc. unfold decide. rewrite Hb, Hc. reflexivity. Qed.
 
 Theorem input_encoding_then_utf8 b known :
   strip_prefix BOM b = None -> coding_match (dec_ignore b) = None ->
-  decide dec_ignore (IBytes b) known = OBytes (or_default known) b.
+  decide dec_ignore names_utf8 (IBytes b) known = OBytes (or_default known) b.
 Proof. intros Hb Hc. unfold decide. rewrite Hb, Hc. reflexivity. Qed.
 
 Theorem bom_is_utf8 p known :
-  (coding_match (dec_ignore p) = None \/ exists rest, coding_match (dec_ignore p) = Some (utf8, rest)) ->
-  decide dec_ignore (IBytes (BOM ++ p)) known = OBytes utf8 p.
+  (coding_match (dec_ignore p) = None \/ exists name rest, coding_match (dec_ignore p) = Some (name, rest) /\ names_utf8 name = true) ->
+  decide dec_ignore names_utf8 (IBytes (BOM ++ p)) known = OBytes utf8 p.
 Proof.
-  intros H. unfold decide. rewrite strip_prefix_app. destruct H as [->|[rest ->]]; [reflexivity|].
-  rewrite str_eqb_refl. reflexivity.
+  intros H. unfold decide. rewrite strip_prefix_app. destruct H as [->|(name & rest & -> & Hn)]; [reflexivity|].
+  rewrite Hn. reflexivity.
 Qed.
 
 Theorem bom_conflict_raises p known name rest :
-  coding_match (dec_ignore p) = Some (name, rest) -> name <> utf8 ->
-  decide dec_ignore (IBytes (BOM ++ p)) known = OBomConflict name.
+  coding_match (dec_ignore p) = Some (name, rest) -> names_utf8 name = false ->
+  decide dec_ignore names_utf8 (IBytes (BOM ++ p)) known = OBomConflict name.
 Proof.
-  intros H Hn. unfold decide. rewrite strip_prefix_app, H. destruct (str_eqb name utf8) eqn:E; [|reflexivity].
-  apply str_eqb_eq in E. contradiction.
+  intros H Hn. unfold decide. rewrite strip_prefix_app, H, Hn. reflexivity.
 Qed.
 
-Theorem str_is_returned_unchanged t known : exists e, decide dec_ignore (IStr t) known = OStr e t.
+Theorem str_is_returned_unchanged t known : exists e, decide dec_ignore names_utf8 (IStr t) known = OStr e t.
 Proof. unfold decide. destruct (coding_match t) as [[n r]|]; eexists; reflexivity. Qed.
 
 Variable dec : str -> list N -> option str.
 
 Theorem undecodable_raises text known e p :
-  decide dec_ignore text known = OBytes e p -> dec e p = None ->
-  decode_raw_stream dec_ignore dec text known = RCompileError.
+  decide dec_ignore names_utf8 text known = OBytes e p -> dec e p = None ->
+  decode_raw_stream dec_ignore names_utf8 dec text known = RCompileError.
 Proof. intros H Hd. unfold decode_raw_stream. rewrite H. cbn [finish]. rewrite Hd. reflexivity. Qed.
 
 Theorem decodable_gives_decoded_text text known e p t :
-  decide dec_ignore text known = OBytes e p -> dec e p = Some t ->
-  decode_raw_stream dec_ignore dec text known = RText e t.
+  decide dec_ignore names_utf8 text known = OBytes e p -> dec e p = Some t ->
+  decode_raw_stream dec_ignore names_utf8 dec text known = RText e t.
 Proof. intros H Hd. unfold decode_raw_stream. rewrite H. cbn [finish]. rewrite Hd. reflexivity. Qed.
 
 (* bytes compile to the same template as their decoded text: the same encoding is chosen for the
@@ -117,7 +117,7 @@ Proof. intros H Hd. unfold decode_raw_stream. rewrite H. cbn [finish]. rewrite H
 Theorem bytes_like_decoded_text b known name rest t :
   strip_prefix BOM b = None -> coding_match (dec_ignore b) = Some (name, rest) -> dec name b = Some t ->
   coding_match t = Some (name, rest) ->
-  decode_raw_stream dec_ignore dec (IBytes b) known = decode_raw_stream dec_ignore dec (IStr t) known.
+  decode_raw_stream dec_ignore names_utf8 dec (IBytes b) known = decode_raw_stream dec_ignore names_utf8 dec (IStr t) known.
 Proof.
   intros Hb Hc Hd Ht. unfold decode_raw_stream, decide. rewrite Hb, Hc, Ht. cbn [finish]. rewrite Hd. reflexivity.
 Qed.
